@@ -28,6 +28,7 @@ ASSUMPTIONS = [
 ]
 SHARDS = {"quick": 4, "thorough": 16}
 MIN_REACH = {
+    "estimates_of_a_decorated_function": {"quick": 30, "thorough": 500},
     "silent_estimates_in_a_process_without_stderr": {"quick": 25, "thorough": 400},
     "contract_evals_rs_update": {"quick": 80000, "thorough": 3000000},
     "contract_evals_rc_update": {"quick": 30000, "thorough": 500000},
@@ -332,6 +333,15 @@ def run_case(ctx, case):
             calls.append(x)
             return x
 
+        if case["sseed"] % 6 == 1:
+            # the sampled callable is a functools.wraps-decorated function: the decorator is what draws and records the
+            # samples here (the function underneath returns something else): the callable GIVEN is the one to call
+            import functools
+
+            def undecorated(scale=1.0):
+                return 0.0
+            fn = functools.wraps(undecorated)(fn)
+            ctx.count("estimates_of_a_decorated_function")
         kw = dict(rtol=case["rtol"], tol_scale=case["tol_scale"], min_samples=case["min_samples"],
                   max_samples=case["max_samples"], get=case["get"], verbosity=case["verbosity"])
         out, err = None, None
